@@ -448,7 +448,19 @@ func exec(line string) hx.Result {
 		}
 		b = append(b, fmt.Sprintf("class=%d", 1+ref.ci-maxDeg))
 	}
-	return hx.Result{Obs: first.line(c.Level) + " ## order=" + first.ord + " bk=" + first.bk + " lg=" + first.lg + " ds=" + first.ds + " dk=" + first.dk + " dci=" + first.dci, Nontrivial: nontrivial, Buckets: b, Viol: viol}
+	// corpus of the known finding C09:chromatic-index-byte-wrap: ChromaticIndex alone on a large tree
+	big := ""
+	for _, t := range c.Toks {
+		if t.Kind == 'B' {
+			// the model side (Bron-Kerbosch and the edge-array loop on 33 000 pairs in extracted
+			// Coq) costs ~17 s per case: only the pure star is compared with the model, the other
+			// shapes are validated here only
+			if o := observeBig(c, t, &viol); len(t.Ints) == 2 && t.Ints[1] == 0 {
+				big += " big=" + o
+			}
+		}
+	}
+	return hx.Result{Obs: first.line(c.Level) + " ## order=" + first.ord + " bk=" + first.bk + " lg=" + first.lg + " ds=" + first.ds + " dk=" + first.dk + " dci=" + first.dci + big, Nontrivial: nontrivial, Buckets: b, Viol: viol}
 }
 
 func main() {
